@@ -4,7 +4,18 @@
 import os, json, shutil, subprocess, re
 from . import common as C
 
-FAMS = {'shapes': [0, 1, 2, 3], 'fnptr': [0, 1], 'alias': [0, 1], 'tiny': [0, 1], 'cxx': [0, 1, 2], 'mathx': [0, 1]}
+FAMS = {'shapes': [0, 1, 2, 3], 'fnptr': [0, 1], 'alias': [0, 1], 'tiny': [0, 1], 'cxx': [0, 1, 2], 'mathx': [0, 1], 'tool': [0, 1]}
+EXES = ('tool',)      # families that are executables (compared like shared objects unless --dso-only is given)
+
+
+def file_name(fam):
+    return fam if fam in EXES else 'lib%s.so' % fam
+
+
+def fam_of(path):
+    b = os.path.basename(path)
+    return b if b in EXES else b[3:-3]
+
 DIRS = ['', 'lib', 'usr/lib64', 'plugins/a', 'plugins/b']
 ABIGNORE = b"[suppress_function]\n  name = function_that_does_not_exist_anywhere\n"
 
@@ -52,7 +63,7 @@ def gen_workload(rng, big=False, devel=False, same_prefix=False, extended=True, 
         tries += 1
         fam = rng.choice(sorted(FAMS))
         d = '' if layout == 'flat' else rng.choice(DIRS)
-        path = (d + '/' if d else '') + 'lib%s.so' % fam
+        path = (d + '/' if d else '') + file_name(fam)
         if path in used:
             continue
         used.add(path)
@@ -91,7 +102,7 @@ def gen_workload(rng, big=False, devel=False, same_prefix=False, extended=True, 
             side = rng.choice(['first', 'first', 'second', 'both'])
             for f in [f for f in files if os.path.dirname(f['path']) == d]:
                 g = {'path': l + '/' + os.path.basename(f['path']), 'v1': None, 'v2': None}
-                fam = os.path.basename(f['path'])[3:-3]
+                fam = fam_of(f['path'])
                 for sd, key in (('first', 'v1'), ('second', 'v2')):
                     if side in (sd, 'both'):
                         g[key] = f[key]                      # the very same file, seen through the link
@@ -114,6 +125,8 @@ def gen_workload(rng, big=False, devel=False, same_prefix=False, extended=True, 
         opts.append('--redundant')
     if nodbg and rng.chance(1, 2):
         opts.append('--fail-no-dbg')
+    if extended and any(fam_of(f['path']) in EXES for f in files) and rng.chance(1, 3):
+        opts.append('--dso-only')          # executables are then no binaries of the package at all
     if swarm:
         for o in SWARM_OPTS:
             if rng.chance(1, 8):
@@ -128,12 +141,12 @@ def gen_workload(rng, big=False, devel=False, same_prefix=False, extended=True, 
     if same_prefix:
         p1, p2 = side_prefixes(wl)
         if p1 != p2:
-            free = sorted(f for f in FAMS if 'lib%s.so' % f not in used)
+            free = sorted(f for f in FAMS if file_name(f) not in used and f not in EXES)
             if free:
                 fam = rng.choice(free)
                 a = rng.choice(FAMS[fam])
                 b = a if rng.chance(1, 2) else rng.choice(FAMS[fam])
-                files.append({'path': 'lib%s.so' % fam, 'v1': '%s_v%d' % (fam, a), 'v2': '%s_v%d' % (fam, b)})
+                files.append({'path': file_name(fam), 'v1': '%s_v%d' % (fam, a), 'v2': '%s_v%d' % (fam, b)})
             else:       # every family already has a file at the root: make one of them present on both sides
                 f = rng.choice([f for f in files if '/' not in f['path']])
                 f['v1'], f['v2'] = f['v1'] or f['v2'], f['v2'] or f['v1']
@@ -241,6 +254,8 @@ def model(wl, pair_status):
         return path
 
     for f in wl['files']:
+        if '--dso-only' in wl['options'] and fam_of(f['path']) in EXES:
+            continue
         if f['v1'] and f['v2']:
             if '--fail-no-dbg' in wl['options'] and (f['v1'].endswith('_nodbg') or f['v2'].endswith('_nodbg')):
                 # the comparison of this pair ends with an error (ABIDIFF_ERROR); nothing else is known about the pair
